@@ -6,7 +6,8 @@ structure Report where
   agree : Nat := 0
   disagree : Nat := 0
   monitorFail : Nat := 0
-  out : Array String := #[]        -- DISAGREE / MONITOR lines (capped)
+  out : Array String := #[]        -- DISAGREE lines (capped)
+  mon : Array String := #[]        -- MONITOR lines (capped separately, printed first)
   stats : List (String × Nat) := []
   deriving Inhabited
 
@@ -26,8 +27,8 @@ def Report.addDisagree (r : Report) (lineno : Nat) (line model : String) : Repor
 
 def Report.addMonitor (r : Report) (name : String) (lineno : Nat) (line msg : String) : Report :=
   let r := { r with monitorFail := r.monitorFail + 1 }
-  if r.out.size < cap then
-    { r with out := r.out.push s!"MONITOR {name} {lineno} | {line} | {msg}" }
+  if r.mon.size < cap then
+    { r with mon := r.mon.push s!"MONITOR {name} {lineno} | {line} | {msg}" }
   else r
 
 /-- Split `op… => result`. -/
@@ -45,6 +46,7 @@ def Report.check (r : Report) (lineno : Nat) (line impl model : String) : Report
   if impl = model then { r with agree := r.agree + 1 } else r.addDisagree lineno line model
 
 def Report.print (r : Report) : IO Unit := do
+  for l in r.mon do IO.println l
   for l in r.out do IO.println l
   IO.println s!"STAT lines {r.lines}"
   IO.println s!"STAT agree {r.agree}"
